@@ -212,7 +212,7 @@ class C02(Property):
     )
     assumptions = [
         "position is not judged for components that wind around a periodic axis; omissions involving a winding component are accepted",
-        "cylindrical grids: both the plain mean and the volume-weighted mean of the cell centres are accepted as 'centre of mass'; sphere non-overlap among returned droplets is not judged there (the statement's 'the same holds' is read as the component correspondence)",
+        "cylindrical grids: both the plain mean and the volume-weighted mean of the cell centres are accepted as 'centre of mass'; sphere non-overlap among returned droplets is judged with the distance along the axis (winding objects excepted); pairs that overlap only through the periodic boundary are the open finding F27 (known_findings.json), excluded by that signature and counted",
         "tolerances: volumes rtol 1e-9, positions 1e-9 x box size",
     ]
 
